@@ -88,12 +88,12 @@ def h_weights(B, cls="EOF", n=4, p=2, k=2, flags=None, layout="2d", reorder=Fals
     B.eq("weights == pre-multiplied data: decomposed matrix", m1.data["input_data"], m2.data["input_data"])
 
 
-def h_coslat(B, n=4, p=4, k=2, latname="lat", flags=None, order=None):
+def h_coslat(B, n=4, p=4, k=2, latname="lat", flags=None, order=None, lats=(-60.0, 35.0)):
     flags = dict(flags or {})
     p2 = p // 2
     sizes = {"time": n, latname: 2, "lon": p2}
     order = order or ("time", latname, "lon")
-    X = xr.DataArray(B.array(tuple(sizes[d] for d in order), "x"), dims=order, coords={"time": list(range(n)), latname: [-60.0, 35.0], "lon": XS[:p2]}, name="v_x")
+    X = xr.DataArray(B.array(tuple(sizes[d] for d in order), "x"), dims=order, coords={"time": list(range(n)), latname: list(lats), "lon": XS[:p2]}, name="v_x")
     w = np.sqrt(np.cos(np.deg2rad(X[latname])).clip(0, 1))
     if flags.get("standardize"):
         oracle_matrix(X, "time", True, True, B=B)
@@ -147,7 +147,11 @@ def h_cross(B, what="weights", n=4, p=2, q=2, cls="MCA", alpha=1.0):
         B.eq("cross: (cX, cY): scores2 * c", m2.scores()[1], m1.scores()[1] * c)
         B.eq("cross: (cX, cY): components1 unchanged", m2.components()[0], m1.components()[0])
         if B.tier == "thorough":
-            B.eq("cross: (cX, cY): squared covariance fraction unchanged", m2.squared_covariance_fraction(), m1.squared_covariance_fraction())
+            # the fraction squared_covariance / total_squared_covariance is unchanged because numerator and denominator both
+            # scale with c^4 (stated as two polynomial obligations; the quotient itself left the reducer stuck at 6000 terms)
+            c4 = c * c * c * c
+            B.eq("cross: (cX, cY): squared covariance * c^4", m2.data["squared_covariance"], m1.data["squared_covariance"] * c4)
+            B.eq("cross: (cX, cY): total squared covariance * c^4", m2.data["total_squared_covariance"], m1.data["total_squared_covariance"] * c4)
 
 
 def configs(tier):
@@ -156,7 +160,7 @@ def configs(tier):
     def add(fn, key, **params):
         cfg = {"key": key, "fn": fn, "params": params}
         if fn == "h_cross":
-            cfg["options"] = {"full_rank": True}
+            cfg["options"] = {"full_rank": True, "budget_s": 150 if tier == "quick" else 300}
         out.append(cfg)
 
     for cls in ("EOF", "ComplexEOF"):
@@ -173,10 +177,15 @@ def configs(tier):
     add("h_weights", "EOF|weights stored in reversed coordinate order|3d", layout="3d", p=4, reorder=True)
     add("h_weights", "EOF|weights|dataset", layout="dataset", p=4)
     add("h_scale", "EOF|global scale|standardize-off|center-off", flags={"center": False})
-    names = ["lat", "latitude"] if tier == "quick" else ["lat", "latitude", "lats", "latitudes"]
+    names = ["lat", "latitude"] if tier == "quick" else ["lat", "latitude", "lats", "Latitude", "LAT"]  # names accepted by extract_latitude_dimension
     for nm in names:
         add("h_coslat", f"coslat|{nm}", latname=nm)
     add("h_coslat", "coslat|lat|standardize", flags={"standardize": True})
+    # latitudes are degrees whatever their range: a small near-equatorial domain, descending order, the poles
+    add("h_coslat", "coslat|lat|near-equatorial degrees", lats=(-1.5, 0.75))
+    add("h_coslat", "coslat|lat|descending", lats=(80.0, -10.0))
+    if tier == "thorough":
+        add("h_coslat", "coslat|lat|pole", lats=(90.0, 0.0))
     add("h_coslat", "coslat|lat|order=lon,time,lat", order=("lon", "time", "lat"))
     for what in ("weights", "shift", "scale"):
         add("h_cross", f"MCA|{what}", what=what)
